@@ -1,11 +1,11 @@
 import PxModel.DrvParser
 import PxProofs.ChunkLemmas
-import PxProofs.ParserLemmas
+import PxProofs.ParserLemmasF
 /-!
 # C03 — incremental HTTP parsing does not depend on how input is segmented
 
 Property theorems; helper lemmas are in `PxProofs/BytesLemmas.lean`,
-`PxProofs/ChunkLemmas.lean`, `PxProofs/ParserLemmas.lean`.  The models
+`PxProofs/ChunkLemmas.lean`, `PxProofs/ParserLemmas.lean` (+ parts `B`–`F`).  The models
 (`PxModel/Chunk.lean`, `PxModel/Parser.lean`) are tied to
 `proxy/http/parser/chunk.py` / `parser.py` by the correspondence check
 `harness/c03.py`.
@@ -129,6 +129,12 @@ example : (ChunkedStream.chunk [53] [] [104, 101, 108, 108, 111]
     ⟨by decide, by decide, by decide, .inr (by decide)⟩, by decide,
     ⟨by decide, by decide, by decide, .inl rfl⟩⟩
 
+/-- the sizes written by `'{:x}'.format(n)` (`natToHex`, used by `ChunkParser.to_chunks`) are size lines -/
+example : SizeLine (natToHex 0) [] 0 ∧ SizeLine (natToHex 10) [] 10 ∧ SizeLine (natToHex 255) [] 255 ∧
+    SizeLine (natToHex 4096) [] 4096 ∧ SizeLine (natToHex 1048575) [59, 97] 1048575 := by
+  refine ⟨⟨?_, ?_, ?_, .inl rfl⟩, ⟨?_, ?_, ?_, .inl rfl⟩, ⟨?_, ?_, ?_, .inl rfl⟩, ⟨?_, ?_, ?_, .inl rfl⟩,
+    ⟨?_, ?_, ?_, .inr rfl⟩⟩ <;> decide +kernel
+
 end Px.Chunk
 
 /-! ## Part 2 — `HttpParser` -/
@@ -146,5 +152,141 @@ theorem C03_buffer_carry (cfg : Cfg) (p : Parser) (bf x : Bytes) (hb : p.buffer 
 /-- non-vacuity: a request parser that has buffered `GE` -/
 example : ({ ty := .request, buffer := some [71, 69], totalSize := 2 } : Parser).buffer = some [71, 69] ∧
     ([84] : Bytes) ≠ [] := ⟨rfl, by decide⟩
+
+
+/-- `HTTP/1.1 200 OK\r\nContent-Length: 2\r\n\r\nhi` -/
+def exampleResponse : Bytes :=
+  [72, 84, 84, 80, 47, 49, 46, 49, 32, 50, 48, 48, 32, 79, 75, 13, 10, 67, 111, 110, 116, 101, 110, 116, 45,
+   76, 101, 110, 103, 116, 104, 58, 32, 50, 13, 10, 13, 10, 104, 105]
+
+/-- **C03, well-formed parser states.**  `Parser.WF` (the invariant `Inv` of
+`ParserLemmasB.lean`: chunk sub-decoder well-formed, `contentExpected` backed by
+a positive Content-Length larger than the body received so far, no body/framing
+flags before the headers, framing known in the body phase; plus: a present
+buffer is non-empty) holds for fresh parsers and is kept by every successful
+`parse`. -/
+theorem C03_wf (cfg : Cfg) : (∀ ty, WF (init ty)) ∧
+    ∀ (p p' : Parser) (x : Bytes), WF p → parse cfg p x = .ok p' → WF p' :=
+  ⟨wf_init, fun _ _ _ hw h => parse_wf cfg hw h⟩
+
+/-- **C03, two pieces (full parser state).**  From every well-formed parser
+state — request or response, whatever phase it is in, whatever it has buffered —
+feeding `a ++ b` in one piece gives exactly the same parser (every field:
+state, start-line fields, headers, body, chunk sub-decoder, buffer, byte
+counter) as feeding `a` and then `b`, and raises exactly when the two-piece
+feed raises (so the converse direction holds as well: if the whole is `ok q`
+then the first piece is `ok p'` and the second is `ok q`).
+Excluded (`closeDelimited`): inputs after which the whole feed is inside the
+body of a response that has neither `Transfer-Encoding: chunked` nor a
+`Content-Length` header — there the real parser's answer legitimately depends on
+where the input was cut (the body is delimited by connection close). -/
+theorem C03_feed_append (cfg : Cfg) (p : Parser) (a b : Bytes) (hw : WF p)
+    (hg : ∀ q, parse cfg p (a ++ b) = .ok q → closeDelimited q = false) :
+    parse cfg p (a ++ b) = (parse cfg p a).bind (fun p' => parse cfg p' b) :=
+  parse_append cfg a b hw hg
+
+/-- **C03, any segmentation.**  Cutting the input of a fresh (or any
+well-formed) parser into any number of pieces at any positions — empty pieces
+included — does not change the resulting parser state or the error raised. -/
+theorem C03_segmentation (cfg : Cfg) (ty : PType) (segs : List Bytes) (x : Bytes) (hx : segs.flatten = x)
+    (hg : ∀ q, parse cfg (init ty) x = .ok q → closeDelimited q = false) :
+    parseAll cfg (init ty) segs = parse cfg (init ty) x := by
+  subst hx; exact parseAll_flatten cfg segs (wf_init ty) hg
+
+/-- non-vacuity of `WF`: the state after `HTTP/1.1 200 OK\r\nContent-` is well-formed, is in the
+    header phase and carries a non-empty buffer -/
+example : ∀ p, parse {} (init .response) (exampleResponse.take 25) = .ok p → WF p :=
+  fun _ h => parse_wf {} (wf_init _) h
+example : (match parse {} (init .response) (exampleResponse.take 25) with
+    | .ok p => p.state == .lineRcvd && p.buffer == some (exampleResponse.take 25 |>.drop 17)
+    | .error _ => false) = true := by decide +kernel
+
+/-- non-vacuity of the guard: a Content-Length response is not close-delimited (and complete) -/
+example : ∀ q, parse {} (init .response) exampleResponse = .ok q → closeDelimited q = false := by
+  have h : (match parse {} (init .response) exampleResponse with
+      | .ok q => q.state == .complete && !closeDelimited q
+      | .error _ => false) = true := by decide +kernel
+  intro q hq
+  rw [hq] at h
+  simp only [Bool.and_eq_true, Bool.not_eq_true'] at h
+  exact h.2
+
+/-- for request parsers no input is excluded -/
+theorem C03_segmentation_request (cfg : Cfg) (segs : List Bytes) (x : Bytes) (hx : segs.flatten = x) :
+    parseAll cfg (init .request) segs = parse cfg (init .request) x :=
+  C03_segmentation cfg .request segs x hx
+    (fun _ hq => closeDelimited_request ((parse_ty cfg hq).trans rfl))
+
+/-- … from any well-formed state -/
+theorem C03_segmentation_from (cfg : Cfg) (p : Parser) (segs : List Bytes) (hw : WF p)
+    (hg : ∀ q, parse cfg p segs.flatten = .ok q → closeDelimited q = false) :
+    parseAll cfg p segs = parse cfg p segs.flatten :=
+  parseAll_flatten cfg segs hw hg
+
+/-- **C03, exact completion.**  For every well-formed self-delimiting message `m`
+(`Msg.Valid`: request line `method SP target SP version` whose target
+`Url.from_bytes` accepts, or status line `version SP code SP reason`; any
+number of clean header fields `name: value` other than the framing headers;
+framing by `Content-Length: n` + `n` body bytes (`n ≥ 0`, the text of `n` being
+anything `int()` reads as `n`), by `Transfer-Encoding: chunked` + a valid
+chunked stream (no trailers), or — requests only — no body) and every tail `t`:
+a fresh parser fed `render m ++ t` in one piece is `COMPLETE`, holds the decoded
+body, and keeps exactly `t` as unconsumed remainder; and fed any strict prefix
+of `render m` it neither raises nor is `COMPLETE`.  (With `C03_segmentation`
+the same holds for every way of cutting the input.) -/
+theorem C03_exact_completion (cfg : Cfg) (m : Msg) (hv : m.Valid cfg) (t : Bytes) :
+    (∃ q, parse cfg (init m.ty) (m.render ++ t) = .ok q ∧ q.state = .complete ∧
+      q.body = m.body.decoded ∧ q.buffer = (if t.isEmpty then none else some t)) ∧
+    ∀ p s, m.render = p ++ s → s ≠ [] →
+      ∃ q', parse cfg (init m.ty) p = .ok q' ∧ q'.state ≠ .complete := by
+  have hne : ∀ t, m.render ++ t ≠ [] := fun t => by simp [Msg.render, CRLF]
+  have key : ∀ t, ∃ q, parse cfg (init m.ty) (m.render ++ t) = .ok q ∧ q.state = .complete ∧
+      q.body = m.body.decoded ∧ q.buffer = (if t.isEmpty then none else some t) := by
+    intro t
+    obtain ⟨Q, hgo, hst, hbd⟩ := go_msg cfg m hv t
+    refine ⟨finish (setTB (m.render ++ t).length none Q, t), ?_, hst, hbd, rfl⟩
+    rw [parse_init_nonempty cfg _ (hne t), hgo]; rfl
+  refine ⟨key t, ?_⟩
+  obtain ⟨q, hq, hst, _, hbuf⟩ := key []
+  rw [List.append_nil] at hq
+  exact no_prefix_complete cfg (wf_init m.ty) hq hst (by simpa using hbuf)
+
+/-- **C03, exact completion, header-less status line.**  `version SP code SP reason CRLF CRLF`
+(e.g. `HTTP/1.1 200 Connection established`) completes a response parser exactly at its
+last byte (no trailing bytes: what would follow is a close-delimited body). -/
+theorem C03_exact_completion_statusline (cfg : Cfg) (line : Bytes) (hsl : StartLine cfg .response line) :
+    (∃ q, parse cfg (init .response) (line ++ CRLF ++ CRLF) = .ok q ∧ q.state = .complete ∧
+      q.buffer = none) ∧
+    ∀ p s, line ++ CRLF ++ CRLF = p ++ s → s ≠ [] →
+      ∃ q', parse cfg (init .response) p = .ok q' ∧ q'.state ≠ .complete := by
+  obtain ⟨Q, hgo, hst⟩ := go_statusLine cfg hsl
+  have hq : parse cfg (init .response) (line ++ CRLF ++ CRLF) =
+      .ok (finish (setTB (line ++ CRLF ++ CRLF).length none Q, [])) := by
+    rw [parse_init_nonempty cfg _ (by simp [CRLF]), hgo]; rfl
+  exact ⟨⟨_, hq, hst, rfl⟩, no_prefix_complete cfg (wf_init _) hq hst rfl⟩
+
+/-! non-vacuity: `POST /u HTTP/1.1`, `Host: a`, chunked body `1\r\nX\r\n0\r\n\r\n`
+    (the target is accepted by `Url.fromBytes`: it starts with a single `/`) -/
+example : (Msg.mk .request [80, 79, 83, 84, 32, 47, 117, 32, 72, 84, 84, 80, 47, 49, 46, 49]
+    [([72, 111, 115, 116], [97])] (.chunked (.chunk [49] [] [88] (.last [48] [])))).Valid {} := by
+  refine ⟨⟨by decide, [80, 79, 83, 84], [47, 117], [72, 84, 84, 80, 47, 49, 46, 49], rfl, by decide,
+    by decide, fun _ => ⟨_, rfl⟩⟩, ?_, ?_⟩
+  · intro kv hkv
+    simp only [List.mem_singleton] at hkv
+    subst hkv
+    exact ⟨⟨by decide, by decide, by decide, by decide, by decide⟩, by decide +kernel, by decide +kernel⟩
+  · exact ⟨⟨by decide, by decide, by decide, .inl rfl⟩, by decide, ⟨by decide, by decide, by decide, .inl rfl⟩⟩
+
+/-- `HTTP/1.1 200 OK`, `Content-Length: 2`, body `hi` -/
+example : (Msg.mk .response [72, 84, 84, 80, 47, 49, 46, 49, 32, 50, 48, 48, 32, 79, 75] []
+    (.cl [50] [104, 105])).Valid {} := by
+  refine ⟨⟨by decide, [72, 84, 84, 80, 47, 49, 46, 49], [50, 48, 48], [79, 75], rfl, by decide, by decide,
+    fun h => by simp at h⟩, fun kv h => by simp at h, ?_, by decide⟩
+  exact ⟨by decide +kernel, by decide +kernel, by decide, by decide +kernel, by decide +kernel⟩
+
+/-- `HTTP/1.1 200 Connection established` is a status line -/
+example : StartLine {} .response ([72, 84, 84, 80, 47, 49, 46, 49, 32, 50, 48, 48, 32] ++
+    [67, 111, 110, 110, 101, 99, 116, 105, 111, 110, 32, 101, 115, 116, 97, 98, 108, 105, 115, 104, 101, 100]) :=
+  ⟨by decide, [72, 84, 84, 80, 47, 49, 46, 49], [50, 48, 48], _, rfl, by decide, by decide, fun h => by simp at h⟩
 
 end Px.Parser
